@@ -37,6 +37,8 @@ VALUES = {
     'one_list': lambda: ([11, 12, 13],),
     'one_empty': lambda: [[]],
     # nested collections of unequal lengths (layer sizes): each element is one value
+    'zero_pos': lambda: [0.0, 1.5],
+    'zero_neg': lambda: [-0.0, 1.5],
     'ragged': lambda: [[8], [8, 8], [16, 8, 4]],
     'ragged_t': lambda: ((3,), (3, 3)),
 }
@@ -45,7 +47,7 @@ EXPANDED = {
     'nparr': [1, 2], 'none': [None], 'strs': ['p', 'qq'], 'nested': [[1, 2], 'ab'], 'np2d': [[1, 2], [3, 4], [5, 6]], 'np0d': [5],
     'npdt': ['dt:2021-03-04T05:06:07.000000008', 'dt:2021-03-05T00:00:00.000000000'],
     'tuple_f': [1.0, 1.0], 'legacy_seq': [4, 5, 6], 'one_tuple': [[10, 20]], 'one_list': [[11, 12, 13]], 'one_empty': [[]],
-    'ragged': [[8], [8, 8], [16, 8, 4]], 'ragged_t': [[3], [3, 3]],
+    'ragged': [[8], [8, 8], [16, 8, 4]], 'ragged_t': [[3], [3, 3]], 'zero_pos': [0.0, 1.5], 'zero_neg': [-0.0, 1.5],
 }
 NAMES = ['pa', 'pb', 'pc']
 STARTS = {
@@ -92,7 +94,8 @@ def _kind(v):
     if isinstance(v, (int, np.integer)):
         return 'int'
     if isinstance(v, (float, np.floating)):
-        return 'float'
+        import math
+        return 'float-' if (v == 0 and math.copysign(1.0, v) < 0) else 'float'       # -0.0 is not 0.0
     if isinstance(v, np.datetime64) or (isinstance(v, str) and v.startswith('dt:')):
         return 'dt'
     if isinstance(v, str):
@@ -615,7 +618,7 @@ def run(ctx):
         plan = [('empty', vals, 2), ('dict_ab', vals[:5], 2)]
     elif ctx.tier == 'quick':
         vals = ['int', 'str', 'empty', 'one', 'two', 'tuple_rep', 'range2', 'nparr', 'none', 'np2d', 'np0d', 'npdt', 'tuple_f',
-                'legacy_seq', 'one_tuple', 'one_list', 'one_empty', 'ragged', 'ragged_t']
+                'legacy_seq', 'one_tuple', 'one_list', 'one_empty', 'ragged', 'ragged_t', 'zero_pos', 'zero_neg']
         plan = [('empty', vals, 3), ('dict_ab', vals[:5], 2), ('empty_dict', vals[:3], 1), ('dict_ba', vals[3:8], 2),
                 ('dict_special', vals[:5], 2)]
     else:
